@@ -4,11 +4,13 @@ import Pacti.Driver.OpsSym
 import Pacti.Driver.OpsElim
 import Pacti.Driver.OpsPlots
 import Pacti.Driver.OpsAlg
+import Pacti.Driver.OpsEq
+import Pacti.Driver.OpsCompound
 open Lean Wire
 
 /-- every op family registers one handler here -/
 def handlers : List (String → Json → Option (Except String Json)) :=
-  [handlePoly, OpsSym.handleSym, OpsElim.handleElim, handlePlots, OpsAlg.handleAlg]
+  [handlePoly, OpsSym.handleSym, OpsElim.handleElim, handlePlots, OpsAlg.handleAlg, handleEq, handleCompound]
 
 def handle (j : Json) : Except String Json := do
   let op ← (← j.getObjVal? "op").getStr?
